@@ -26,6 +26,9 @@ def base(name):
     return name.split('@')[0]
 
 
+TREE = os.environ.get('PYVC_REPO', '/repo')          # the tree under check (default /repo; a scratch copy for tools/try_tree.sh)
+
+
 class _Done(object):
     def __init__(self, rc, out):
         self.returncode = rc; self.stdout = out
@@ -35,8 +38,8 @@ def run_battery(fb, timeout):
     """run a native battery on the real code; a battery that does not terminate (the code under test hangs it) is killed with its whole process
     group and counts as 'did not run' (return code 3: the unit stays undecided) - never as a crash of the checker"""
     import signal
-    pr = subprocess.Popen(['/venv/bin/python', os.path.join(ROOT, fb)], stdout=subprocess.PIPE, stderr=subprocess.DEVNULL, text=True, cwd='/repo',
-                          env=dict(os.environ, PYTHONPATH='/repo'), start_new_session=True)
+    pr = subprocess.Popen(['/venv/bin/python', os.path.join(ROOT, fb)], stdout=subprocess.PIPE, stderr=subprocess.DEVNULL, text=True, cwd=TREE,
+                          env=dict(os.environ, PYTHONPATH=TREE), start_new_session=True)
     try:
         out, _ = pr.communicate(timeout=timeout)
         rc = pr.returncode
@@ -245,8 +248,9 @@ def _main(argv=None):
         'assumptions': sorted(assumptions),
         'wall_s': round(time.time() - t0, 2), 'violations': nviol,
     }
-    os.makedirs(os.path.join(ROOT, 'evidence'), exist_ok=True)
-    json.dump(ev, open(os.path.join(ROOT, 'evidence', prop + '.json'), 'w'), indent=1)
+    evdir = os.environ.get('PYVC_EVIDENCE_DIR') or os.path.join(ROOT, 'evidence')          # redirected only by the scratch-tree tools
+    os.makedirs(evdir, exist_ok=True)
+    json.dump(ev, open(os.path.join(evdir, prop + '.json'), 'w'), indent=1)
     for l in lines:
         print(l)
     print('%s: %d obligations, %d discharged, %d refuted (%d distinct), %d undecided, %d known-finding witnesses, %d unit jobs, %.1fs -> exit %d'
